@@ -114,7 +114,9 @@ def one_run(ctx, corr):
             seen["bars"] += 1
             hb(c, b)
         return dict(handlers, handle_bar=handle_bar)
-    an = {"enabled": True, "record": True, "plot": False, "benchmark": bench}
+    # the report is produced when ANY of record / benchmark / output options asks for it: with a benchmark, `record` may be off
+    an = {"enabled": True, "record": (rnd.random() < 0.6) if bench is not None else True, "plot": False, "benchmark": bench}
+    ctx.stats["record_" + str(an["record"])] += 1
     tr = trading.run_trading(rnd, S, cfgk, script=script, analyser=an)
     code = probe_mod.LAST.get("code")
     final = probe_mod.LAST.get("final")
